@@ -15,10 +15,15 @@ def build(inp):
         return DiGraph(V=V, E=E)
     if via == 'incremental':
         g = DiGraph()
+        done = set()
         for v in V:
-            g.add_node(v)
+            if v not in done:              # add_node / add_edge refuse what is already there
+                g.add_node(v)
+                done.add(v)
         for (a, b) in E:
-            g.add_edge(a, b)
+            if (a, b) not in done:
+                g.add_edge(a, b)
+                done.add((a, b))
         return g
     if via == 'kripke':
         return Kripke(S=V, R=E)
@@ -30,7 +35,12 @@ def check_scc(inp):
     n = inp['n']
     edges = [tuple(e) for e in inp['edges']]
     nm = G.NAMINGS[inp['naming']]
-    g = build(inp)
+    try:
+        g = build(inp)
+    except core.HarnessError:
+        raise
+    except Exception as e:
+        return Failure('scc', inp, 'the graph can be built', 'raised %s: %s' % (type(e).__name__, e))
     before = G.snapshot_graph(g)
     try:
         comps = [list(c) for c in compute_SCCs(g)]
@@ -277,7 +287,7 @@ def run(ctx):
     if f is None:
         f = core.run_random(ctx, history_random_shard, 1600, 16000)
     if f is not None:
-        ctx.violation(_minimise_history(f))
+        ctx.violation(_minimise_history(f) if f.check == 'history' else f)
 
 
 def random_shard(st, shard, nshards, payload):
@@ -314,6 +324,8 @@ def random_shard(st, shard, nshards, payload):
 
 def _minimise(f):
     """Greedy: drop edges while the failure persists."""
+    if f.check != 'scc':
+        return f
     inp = dict(f.input)
     edges = [tuple(e) for e in inp['edges']]
     changed = True
